@@ -488,6 +488,10 @@ def check_c15(tier):
             # the fixture is the LAST statement and the document has NO final newline: every range must still lie inside it
             text = "def test_uses(fx_sample):\n    pass\n\n\n" + render_fn(fc["fn"]).rstrip("\n")
         path = os.path.join(root, "test_s.py")
+        # the fixtures fx_sample may request exist, so that the call hierarchy has something to point at
+        with open(os.path.join(root, "conftest.py"), "w") as fh:
+            fh.write("import pytest\n" + "".join("\n\n@pytest.fixture\ndef %s():\n    return 1\n" % nm
+                                                  for nm in ("dep_a", "dep_b", "dep_c", "mark_dep", "ind_dep")))
         srv = lsp.Server()
         try:
             srv.initialize(root)
@@ -500,6 +504,12 @@ def check_c15(tier):
                    "lens": srv.doc_request("textDocument/codeLens", path),
                    "implementation": srv.pos_request("textDocument/implementation", path, tline, 15),
                    "text": text, "tline": tline}
+            dl = next((i for i, l in enumerate(lines) if "def fx_sample(" in l), None)
+            if dl is not None:
+                pc = srv.pos_request("textDocument/prepareCallHierarchy", path, dl, lines[dl].index("fx_sample") + 1)
+                if pc and isinstance(pc, list):
+                    out["outgoing"] = srv.request("callHierarchy/outgoingCalls", {"item": pc[0]})
+                    out["incoming"] = srv.request("callHierarchy/incomingCalls", {"item": pc[0]})
             out["alive"] = srv.alive()
             return out
         except (lsp.ServerDied, lsp.Timeout) as e:
@@ -551,6 +561,23 @@ def check_c15(tier):
         keys = [json.dumps(x, sort_keys=True) for x in refs]
         if len(keys) != len(set(keys)):
             V.violation(dict(ex, references=refs), "find-references lists a location twice")
+        # call-hierarchy ranges: every fromRange of an outgoing call covers exactly the parameter that names the called fixture,
+        # every fromRange of an incoming call exactly the name of this fixture in the caller's signature (ASCII lines here, so
+        # UTF-16 columns are character columns)
+        for kind, want_name in (("outgoing", None), ("incoming", "fx_sample")):
+            calls = r.get(kind)
+            if not isinstance(calls, list):
+                continue
+            for call in calls:
+                nm = want_name or call["to"]["name"]
+                for rg in call.get("fromRanges", []):
+                    ok = inside(rg) and rg["start"]["line"] == rg["end"]["line"]
+                    got = lines[rg["start"]["line"]][rg["start"]["character"]:rg["end"]["character"]] if ok else None
+                    if ok and not lines[rg["start"]["line"]].isascii():
+                        continue
+                    if got != nm:
+                        V.violation(dict(ex, call_hierarchy=kind, fixture=nm, range=rg, text_at_range=got),
+                                    "a call-hierarchy range does not cover exactly the identifier that names the fixture there")
     shutil.rmtree(base, ignore_errors=True)
     V.sample({"construct": cases[0]["c"], "line": "".join(piece_text(p) for p in (cases[0]["line"]["before"] or [])) + "...",
               "expect": cases[0]["expect"]})
